@@ -91,7 +91,13 @@ void h_bundle(void)
     V_ASSUME(cap <= CAPMAX);
 #endif
     char *buf = V_MALLOC(cap);
+#ifdef BN_CAP
+    /* concrete capacity: the destination previously held a fixed non-zero pattern (symbolic stale bytes would make the
+     * element scan of a faulty variant symbolic and undecidable; any non-zero stale size word shows a missing clear) */
+    for(size_t q = 0; q < CAPMAX; q++) if(q < cap) buf[q] = (char)(0x5a + (q & 3));
+#else
     for(size_t q = 0; q < CAPMAX; q++) if(q < cap) buf[q] = (char)IN.fill[q];
+#endif
 #if BN_K == 0
     size_t r = rtosc_bundle(buf, cap, IN.tt, 0);
 #elif BN_K == 1
@@ -112,6 +118,10 @@ void h_bundle(void)
     } else {
         A08(r == need, "C08 bundle constructor returns the spec length");
         if(k < need) A08((uint8_t)buf[k] == exp[k], "C08 bytes equal the spec bundle");
+#ifdef BN_CAP
+        /* the produced buffer, measured with its capacity as the bound (whatever it held before): same length, same count */
+        A08(rtosc_message_length(buf, cap) == need, "C08 the length function reports the bundle's length on the produced buffer (bound = capacity)");
+#endif
     }
 
 #ifndef PROP_C02
